@@ -6,6 +6,7 @@ import Iota.Gen.B1T6
 import Iota.Tie.Expect
 import Iota.Model.B1T6
 import Iota.Tie.B1T8Code
+import Iota.Tie.B1T6Code
 
 namespace Iota.Tie.C14
 open Iota
@@ -34,14 +35,9 @@ theorem b1t8_masks : Gen.B1T6.b1t8Masks = [1,2,4,8,16,32,64,128] ∧
 /-- pow and migration import iota.go's copy of b1t6; it is the same code. -/
 theorem iotaGoCopy : Gen.B1T6.iotaGoCopyIdentical = true := by decide
 
-/-- b1t8 `Encode` / `Decode` are not pinned by text any more: they are translated as code and tied to the model for
-all inputs in `Iota/Tie/B1T8Code.lean`. -/
-theorem src :
-    Gen.B1T6.src_b1t6_Encode = Expect.B1T6_src_b1t6_Encode ∧
-    Gen.B1T6.src_b1t6_EncodeToTrytes = Expect.B1T6_src_b1t6_EncodeToTrytes ∧
-    Gen.B1T6.src_b1t6_Decode = Expect.B1T6_src_b1t6_Decode ∧
-    Gen.B1T6.src_b1t6_DecodeTrytes = Expect.B1T6_src_b1t6_DecodeTrytes :=
-  ⟨rfl, rfl, rfl, rfl⟩
+/-! Neither b1t6.go nor b1t8.go is pinned by text any more: all their functions — and the four functions of iota.go's
+`trinary` package that b1t6 calls — are translated as code and tied to the model for all inputs in
+`Iota/Tie/B1T6Code.lean` and `Iota/Tie/B1T8Code.lean` (re-exported below as `code_*`). -/
 
 /-- everything else the package declares (imports, constants, types, variables, build constraints and the functions not
 pinned one by one) is unchanged too: no declaration of the modelled packages can change without a tie theorem failing. -/
@@ -68,5 +64,61 @@ theorem code_b1t8_decode (dst src : List (BitVec 8)) (hlen : src.length < 2 ^ 63
         bv (B1T8.decode (trits src)).1 ++ dst.drop (B1T8.decode (trits src)).1.length)) ∧
     (dst.length < (B1T8.decode (trits src)).1.length → Gen.B1T6.b1t8.Decode dst src = none) :=
   ⟨decode_eq dst src hlen, decode_panics dst src hlen⟩
+
+/-! ### b1t6.go — and the four functions of iota.go's `trinary` package it calls — translated AS CODE = the model
+(`Gen.B1T6.b1t6.*`, `Gen.B1T6.trinary.*`; `none` = Go run-time panic). Proofs: `Iota/Tie/B1T6Code.lean`, which also
+characterises `Decode` / `DecodeTrytes` on input outside their documented domain (`decode_gen`, `decodeTrytes_gen`). -/
+open Iota.Tie.Bech32Code (bv) in
+open Iota.Tie.B1T8Code (trits ofTrits) in
+open Iota.Tie.B1T6Code in
+/-- the `trinary` helpers, for ALL arguments: exactly when they panic, and the model's table lookups otherwise -/
+theorem code_trinary :
+    (∀ (ts : List (BitVec 8)) (v : BitVec 8), Gen.B1T6.trinary.MustPutTryteTrits ts v =
+      if 3 ≤ ts.length ∧ -13 ≤ v.toInt ∧ v.toInt ≤ 13 then some (ofTrits (B1T6.tryteTrits v.toInt) ++ ts.drop 3) else none) ∧
+    (∀ ts : List (BitVec 8), Gen.B1T6.trinary.MustTritsToTryteValue ts =
+      if 3 ≤ ts.length then some (tv (ts.getD 0 0#8) (ts.getD 1 0#8) (ts.getD 2 0#8)) else none) ∧
+    (∀ a b c : BitVec 8, tv a b c = BitVec.ofInt 8 (B1T6.tritsToTryteValue a.toInt b.toInt c.toInt)) ∧
+    (∀ v : BitVec 8, Gen.B1T6.trinary.MustTryteValueToTryte v =
+      if -13 ≤ v.toInt ∧ v.toInt ≤ 13 then some (B1T6.tryteChar v.toInt).toBitVec else none) ∧
+    (∀ t : BitVec 8, Gen.B1T6.trinary.MustTryteToTryteValue t =
+      if 57 ≤ t.toNat ∧ t.toNat ≤ 90 then some (BitVec.ofInt 8 (B1T6.tryteValue (UInt8.ofBitVec t))) else none) :=
+  ⟨mustPutTryteTrits_eq, mustTritsToTryteValue_eq, tv_eq_ofInt, mustTryteValueToTryte_eq, mustTryteToTryteValue_eq⟩
+open Iota.Tie.Bech32Code (bv) in
+open Iota.Tie.B1T8Code (trits ofTrits) in
+open Iota.Tie.B1T6Code in
+theorem code_b1t6_encode (dst : List (BitVec 8)) (src : List UInt8) (hlen : src.length < 2 ^ 60) :
+    (6 * src.length ≤ dst.length → Gen.B1T6.b1t6.Encode dst (bv src) =
+      some (BitVec.ofNat 64 (6 * src.length), ofTrits (B1T6.encode src) ++ dst.drop (6 * src.length))) ∧
+    (dst.length < 6 * src.length → Gen.B1T6.b1t6.Encode dst (bv src) = none) := encode_spec dst src hlen
+open Iota.Tie.Bech32Code (bv) in
+open Iota.Tie.B1T6Code in
+theorem code_b1t6_encodeToTrytes (src : List UInt8) (hlen : src.length < 2 ^ 60) :
+    Gen.B1T6.b1t6.EncodeToTrytes (bv src) = some (bv (B1T6.encodeToTrytes src)) := encodeToTrytes_eq src hlen
+open Iota.Tie.Bech32Code (bv) in
+open Iota.Tie.B1T8Code (trits) in
+open Iota.Tie.B1T6Code in
+/-- `Decode` on valid trits is the model (count, error kind, bytes, untouched rest of `dst`; panic exactly when `dst` is
+too short), and on ARBITRARY int8 input it does not panic when `dst` has `DecodedLen(len(src))` entries -/
+theorem code_b1t6_decode (dst src : List (BitVec 8)) (hn : src.length < 2 ^ 62) :
+    (B1T6.ValidTrits (trits src) →
+      ((B1T6.decode (trits src)).1.length ≤ dst.length → Gen.B1T6.b1t6.Decode dst src =
+        some (BitVec.ofNat 64 (B1T6.decode (trits src)).1.length, errOf (B1T6.decode (trits src)).2,
+          bv (B1T6.decode (trits src)).1 ++ dst.drop (B1T6.decode (trits src)).1.length)) ∧
+      (dst.length < (B1T6.decode (trits src)).1.length → Gen.B1T6.b1t6.Decode dst src = none)) ∧
+    (src.length / 6 ≤ dst.length → Gen.B1T6.b1t6.Decode dst src ≠ none) :=
+  ⟨fun hv => decode_spec dst src hn hv, decode_no_panic dst src hn⟩
+open Iota.Tie.Bech32Code (bv) in
+open Iota.Tie.B1T6Code in
+/-- `DecodeTrytes` on characters `'9'`…`'Z'` is the model and never panics; on a lower-case character it panics
+(index out of range in iota.go's `MustTryteToTryteValue`; documented as undefined input, and `migration.Decode` checks the
+alphabet first) -/
+theorem code_b1t6_decodeTrytes (src : List UInt8) (hn : 3 * src.length < 2 ^ 63)
+    (hc : ∀ c ∈ src, 57 ≤ c.toNat ∧ c.toNat ≤ 90) :
+    (Gen.B1T6.b1t6.DecodeTrytes (bv src) =
+      match B1T6.decodeTrytes src with
+      | .ok bs => some (bv bs, none)
+      | .error e => some ([], errOf (some e))) ∧
+    Gen.B1T6.b1t6.DecodeTrytes [97#8, 97#8] = none :=
+  ⟨decodeTrytes_eq src hn hc, decodeTrytes_lowercase_panics⟩
 
 end Iota.Tie.C14
